@@ -4,7 +4,14 @@
  (b) Correspondence: Python/NumPy printing vs the Lean printers, and the exact string handed to
      hashlib.sha1 inside ffcx.naming (captured by shimming `ffcx.naming.hashlib`) vs `encode`.
      The real jit.compile_forms / compile_expressions run up to the cache lookup (patched to stop
-     there): no code generation and no C compiler is involved in computing names.
+     there): no code generation and no C compiler is involved in computing names. Requests with
+     part='diagonal' (the form is rewritten BEFORE the signature) are part of it.
+ (b') Renumbering (naming.py:41-67): on seeded expressions (several coefficients / constants / arguments /
+     geometric quantities over 1-3 meshes, shuffled creation orders, counter offsets) the dict `rn`, the
+     iteration orders of the `extract_type` sets and every terminal's `_ufl_signature_data_(rn)` are captured
+     from the real compute_signature and compared with the Lean `renumber` / `termData`; the hypotheses of
+     `signature_stable_across_processes` are evaluated per pair of histories and its conclusion is checked
+     on the real signatures.
  (c) Stability search: the captured strings / names of the same requests in subprocesses with
      different PYTHONHASHSEED, creation orders and UFL counter offsets must be identical.
  (d) Separation search: request pairs that differ in exactly one ingredient must get different
@@ -38,24 +45,56 @@ THEOREMS = [
     "Ffcx.Naming.pointsKey_prefix",
     "Ffcx.Naming.encode_objs_tag_inj",
     "Ffcx.Naming.encode_inj",
-    "Ffcx.Naming.encode_stable",
+    "Ffcx.Naming.encode_inj_win32",
+    "Ffcx.Naming.encode_congr",
     "Ffcx.Naming.ident_valid",
     "Ffcx.Naming.alias_valid",
+    "Ffcx.Naming.names_distinct_of_keys",
+    "Ffcx.Naming.key_ne_of_pos_ne",
     "Ffcx.Naming.names_distinct",
+    "Ffcx.Naming.module_positions_distinct",
+    "Ffcx.Naming.formPre_inj",
     "Ffcx.Naming.integralPre_inj",
     "Ffcx.Naming.expressionPre_inj",
     "Ffcx.Naming.expression_names_distinct",
     "Ffcx.Naming.names_distinct_counterexample",
+    # stability half: the renumbering of naming.py:41-64 (FfcxProofs/C13Renumber.lean)
+    "Ffcx.Naming.renumbering_invariant",
+    "Ffcx.Naming.set_order_irrelevant",
+    "Ffcx.Naming.signature_stable_across_processes",
+    "Ffcx.Naming.geo_set_order_regression",
+    "Ffcx.Naming.renumbering_order_counterexample",
 ]
 
 LEAN_FILES = [
     lean.LEAN / "FfcxProofs" / "Lemmas" / "Names.lean",
     lean.LEAN / "FfcxModel" / "Jit" / "Naming.lean",
     lean.LEAN / "DriverNames.lean",
+    lean.LEAN / "FfcxModel" / "Jit" / "Renumber.lean",
+    lean.LEAN / "FfcxProofs" / "Lemmas" / "Renumber.lean",
+    lean.LEAN / "FfcxProofs" / "C13Renumber.lean",
 ]
+
+GEO_KEY = "sig:unstable:geometric-quantity-domain-order"
+GEO_WHAT = ("the name of an expression whose geometric quantities live on two meshes that no coefficient/argument lives on "
+            "depends on PYTHONHASHSEED and on the meshes' ufl ids (before /repo 61cd434 naming.py iterated the SET returned by "
+            "extract_type(expr, GeometricQuantity), so the order in which those meshes were renumbered was the set's iteration "
+            "order; regression key)")
+GEO_REPLAY = ("cel = basix.ufl.element('Lagrange','triangle',1,shape=(2,)); m1, m2 = ufl.Mesh(cel), ufl.Mesh(cel); "
+              "e = ufl.SpatialCoordinate(m1)[0] + 2*ufl.SpatialCoordinate(m2)[1]; "
+              "ffcx.naming.compute_signature([(e, np.array([[0.25, 0.25]]))], 't') under PYTHONHASHSEED=0 and =1, or after "
+              "creating 1 unrelated ufl.Mesh(cel) first")
 
 U = X.sexp_str
 DEC = X.sexp_unstr
+
+
+def geo_violation(chk, payload):
+    """The geometric-quantity set-order finding is reported once per run (first witness); later witnesses are counted."""
+    seen = chk.notes.setdefault("geo_domain_order_witnesses", [])
+    seen.append({k: payload[k] for k in payload if k != "replay"} if len(seen) < 6 else "…")
+    if len(seen) == 1:
+        chk.violation(key=GEO_KEY, what=GEO_WHAT, payload=dict(payload, replay=GEO_REPLAY))
 
 
 # ------------------------------------------------------------------------------ generators
@@ -153,11 +192,16 @@ def corr_printers(chk, d, rng, n):
         got = DEC(d.ask(f"(strscalar {X.sexp_scalar(X.scalar(v))})"))
         if got != str(v):
             chk.disagree("str(scalar)", {"input": repr(v), "model": got, "impl": str(v)})
+    import ffcx.codegeneration.jit as jit
+
+    gone = [f for f in ("_compute_option_signature", "_compilation_signature") if not callable(getattr(jit, f, None))]
+    if gone:
+        chk.disagree("cannot capture the option / compilation signature: ffcx.codegeneration.jit has no " + ", ".join(gone),
+                     {"missing": gone})
+        return
     for _ in range(n // 5):
         o = {rstr(rng): rscalar(rng) for _ in range(rng.randint(0, 7))}
         got = DEC(d.ask("(optsig " + X.sexp_items(o) + ")"))
-        import ffcx.codegeneration.jit as jit
-
         want = jit._compute_option_signature(o)
         chk.case("option-signature", key=f"n{len(o)}:{sorted(type(v).__name__ for v in o.values())}")
         if got != want:
@@ -169,6 +213,21 @@ def corr_printers(chk, d, rng, n):
         chk.case("compilation-signature", key=f"n{len(args)}:{dbg}")
         if got != want:
             chk.disagree("_compilation_signature", {"input": [args, dbg], "model": got, "impl": want})
+        # the win32 branch of the REAL function (sys.platform as jit.py sees it is shimmed for this one call)
+        import sysconfig
+        import types
+
+        real_sys = jit.sys
+        jit.sys = types.SimpleNamespace(platform="win32")
+        try:
+            want = jit._compilation_signature(args, dbg)
+        finally:
+            jit.sys = real_sys
+        ext = sysconfig.get_config_var("EXT_SUFFIX")
+        got = DEC(d.ask(f"(compsigwin ({' '.join(U(a) for a in args)}) {X.sexp_scalar(X.scalar(dbg))} {X.sexp_scalar(X.scalar(ext))})"))
+        chk.case("compilation-signature-win32", key=f"n{len(args)}:{dbg}")
+        if got != want:
+            chk.disagree("_compilation_signature (win32 branch)", {"input": [args, dbg, ext], "model": got, "impl": want})
         parts = [rstr(rng) for _ in range(rng.randint(0, 4))]
         for cmd, fn in (("tuple", tuple), ("list", list)):
             # components are printed by Python, the composite by the model
@@ -186,7 +245,7 @@ def corr_pointskey(chk, d, rng, n):
 
     m, V = _tri()
     expr = ufl.grad(ufl.Coefficient(V))
-    esig = X.expression_signature(expr)
+    esig = X.expression_signature(expr, d)
     for _ in range(n):
         a = rpoints(rng)
         c = rng.random()
@@ -224,6 +283,12 @@ def corr_encode(chk, d, rng, entries, nopt):
             objs = e.build()
             opts = roptions(rng) if k else {}
             opts.pop("part", None)
+            originals = list(objs)
+            diag = getattr(e, "diagonal", False)
+            if diag:
+                # the form list is rewritten to the diagonal blocks BEFORE compute_signature (jit.py:178-195): the model is
+                # fed the signatures of the list as compile_forms left it (objs2), and `part` through the option dict
+                opts["part"] = "diagonal"
             args = [rstr(rng, 5) for _ in range(rng.randint(0, 2))] if k else []
             dbg = bool(k) and rng.random() < 0.5
             try:
@@ -232,6 +297,15 @@ def corr_encode(chk, d, rng, entries, nopt):
                 chk.disagree("jit names raised", {"entry": e.name, "options": repr(opts), "error": repr(ex)})
                 continue
             p = ffcx.options.get_options(opts)
+            if diag:
+                rewritten = [o2 is not o1 for o1, o2 in zip(originals, objs2)]
+                sig_changed = [o2.signature() != o1.signature() for o1, o2 in zip(originals, objs2)]
+                chk.case("encode-diagonal", key=f"{e.name}:{rewritten}")
+                if rewritten != e.expect_rewritten or sig_changed != e.expect_rewritten or not caps[0].startswith(
+                        "".join(o.signature() for o in objs2)):
+                    chk.disagree("part='diagonal': the signature must be taken of the rewritten form list",
+                                 {"entry": e.name, "rewritten": rewritten, "signature_changed": sig_changed,
+                                  "expected": e.expect_rewritten, "impl": caps[0][:40]})
             if e.kind == "form":
                 sigs = [f.signature() for f in objs2]
                 objs_s = "(forms " + " ".join(sigs) + ")"
@@ -239,7 +313,7 @@ def corr_encode(chk, d, rng, entries, nopt):
             else:
                 parts, modelled = [], True
                 for ex_, pts in objs2:
-                    parts.append(f"({X.expression_signature(ex_)} {X.sexp_points(pts)})")
+                    parts.append(f"({X.expression_signature(ex_, d)} {X.sexp_points(pts)})")
                 objs_s = "(exprs " + " ".join(parts) + ")"
             req = f"(request {env} {objs_s} (opts {X.sexp_items(p)}) (comp {X.sexp_compile(args, dbg)}))"
             got = d.ask(req)
@@ -264,13 +338,284 @@ def corr_encode(chk, d, rng, entries, nopt):
                 else:
                     ex_, pts = objs2[i]
                     tag = DEC(d.ask(f"(exprtag {U(prefix)} {i})"))
-                    got = d.ask(f"(encode {env} (exprs ({X.expression_signature(ex_)} {X.sexp_points(pts)})) {U(tag)})")
+                    got = d.ask(f"(encode {env} (exprs ({X.expression_signature(ex_, d)} {X.sexp_points(pts)})) {U(tag)})")
                     shape = "expression_"
                 chk.case("encode-object", key=f"{e.name}:{i}" if k == 0 else None)
                 if DEC(got) != cap:
                     chk.disagree("object pre-hash string", {"entry": e.name, "i": i, "model": DEC(got)[-200:], "impl": cap[-200:]})
                 if oname != shape + hashlib.sha1(cap.encode()).hexdigest():
                     chk.disagree("object name shape", {"entry": e.name, "name": oname})
+
+
+def _bilinear(kind, variant=0):
+    """A bilinear form on a scalar / blocked / mixed space (variant changes one diagonal or one off-diagonal block)."""
+    import basix.ufl
+    import ufl
+
+    m = ufl.Mesh(basix.ufl.element("P", "triangle", 1, shape=(2,)))
+    if kind == "scalar":
+        el = basix.ufl.element("P", "triangle", 1)
+    elif kind == "blocked":
+        el = basix.ufl.element("P", "triangle", 1, shape=(2,))
+    else:
+        el = basix.ufl.mixed_element([basix.ufl.element("P", "triangle", 2, shape=(2,)), basix.ufl.element("P", "triangle", 1)])
+    V = ufl.FunctionSpace(m, el)
+    u, v = ufl.TrialFunction(V), ufl.TestFunction(V)
+    if kind == "mixed":
+        (uu, pp), (vv, qq) = ufl.split(u), ufl.split(v)
+        a = ufl.inner(ufl.grad(uu), ufl.grad(vv)) * ufl.dx + (2.0 if variant == 1 else 1.0) * pp * qq * ufl.dx
+        a += (3.0 if variant == 2 else 1.0) * ufl.div(vv) * pp * ufl.dx + qq * ufl.div(uu) * ufl.dx
+        return [a]
+    if kind == "blocked":
+        a = (2.0 if variant == 1 else 1.0) * ufl.inner(u, v) * ufl.dx
+        a += (3.0 if variant == 2 else 1.0) * u[0] * v[1] * ufl.dx
+        return [a]
+    return [(2.0 if variant == 1 else 1.0) * ufl.inner(u, v) * ufl.dx]
+
+
+class _DiagEntry:
+    kind = "form"
+    diagonal = True
+
+    def __init__(self, space):
+        self.name = f"diag_{space}"
+        self.space = space
+        # a space without sub-elements is left alone (jit.py:186-188), the others are replaced by their diagonal blocks
+        self.expect_rewritten = [space != "scalar"]
+
+    def build(self):
+        return _bilinear(self.space)
+
+
+# ------------------------------------------------------------------------------ (b') renumbering
+_GEO = ["x0", "x1", "vol", "circ"]
+
+
+def _rn_program(rng):
+    """A random program text: creation steps in order (meshes before their users) and the roles used by the expression."""
+    nm = rng.randint(1, 3)
+    items = [("mesh", i, rng.choice([1, 1, 2])) for i in range(nm)]
+    for _ in range(rng.randint(0, 3)):
+        items.append(("coeff", rng.randrange(nm), rng.choice([1, 2])))
+    for _ in range(rng.randint(0, 2)):
+        items.append(("const", rng.randrange(nm), rng.choice([(), (2,)])))
+    for number in rng.sample([0, 1], rng.randint(0, 2)):
+        items.append(("arg", rng.randrange(nm), number))
+    for _ in range(rng.randint(0, 3)):
+        items.append(("geo", rng.randrange(nm), rng.choice(_GEO)))
+    if len(items) == nm:
+        items.append(("geo", 0, "x0"))
+    pos = {i: rng.random() for i in range(len(items))}
+    for i, it in enumerate(items):
+        if it[0] != "mesh":
+            pos[i] = max(pos[i], pos[it[1]] + 1e-6 + 1e-9 * i)
+    order = sorted(range(len(items)), key=lambda i: pos[i])
+    return [items[i] for i in order]
+
+
+def _rn_build(steps, gaps):
+    """Run the program text; before step i create gaps[i] unrelated meshes / coefficients / constants (another history)."""
+    import basix.ufl
+    import ufl
+
+    def junk(n):
+        for _ in range(n):
+            jm = ufl.Mesh(basix.ufl.element("Lagrange", "triangle", 1, shape=(2,)))
+            ufl.Coefficient(ufl.FunctionSpace(jm, basix.ufl.element("P", "triangle", 1)))
+            ufl.Constant(jm)
+
+    meshes, factors = {}, []
+    for i, st in enumerate(steps):
+        junk(gaps[i] if i < len(gaps) else 0)
+        kind = st[0]
+        if kind == "mesh":
+            meshes[st[1]] = ufl.Mesh(basix.ufl.element("Lagrange", "triangle", st[2], shape=(2,)))
+        elif kind == "coeff":
+            factors.append(ufl.Coefficient(ufl.FunctionSpace(meshes[st[1]], basix.ufl.element("P", "triangle", st[2]))))
+        elif kind == "const":
+            c = ufl.Constant(meshes[st[1]], shape=st[2])
+            factors.append(c if st[2] == () else c[1])
+        elif kind == "arg":
+            factors.append(ufl.Argument(ufl.FunctionSpace(meshes[st[1]], basix.ufl.element("P", "triangle", 1)), st[2]))
+        else:
+            mm = meshes[st[1]]
+            factors.append({"x0": lambda: ufl.SpatialCoordinate(mm)[0], "x1": lambda: ufl.SpatialCoordinate(mm)[1],
+                            "vol": lambda: ufl.CellVolume(mm), "circ": lambda: ufl.Circumradius(mm)}[st[2]]())
+    # an asymmetric combination: every factor occurs, no two roles are interchangeable
+    e = 0
+    for k, f in enumerate(factors):
+        e = e + (k + 2) * f * factors[(k + 1) % len(factors)] ** (1 + k % 2)
+    return e
+
+
+def _sigdata_numbers(t, rn):
+    """(kind, numbers …) read off the REAL `_ufl_signature_data_(rn)` of a terminal, in the layout of the model's `termData`."""
+    from ufl.argument import BaseArgument
+    from ufl.classes import Constant, GeometricQuantity
+    from ufl.coefficient import BaseCoefficient
+
+    mt = X.term_of(t)
+    if isinstance(t, BaseCoefficient):
+        sd = t._ufl_signature_data_(rn)
+        ok = sd[0] == "Coefficient" and sd[2][1][0] == "Mesh"
+        return ("coeff", sd[1], mt[2], sd[2][1][1], X._code("cel", repr(sd[2][1][2]))) if ok else ("?", repr(sd))
+    if isinstance(t, Constant):
+        return ("conststr", t._ufl_signature_data_(rn))
+    if isinstance(t, BaseArgument):
+        sd = t._ufl_signature_data_(rn)
+        ok = sd[0] == "Argument" and sd[3][1][0] == "Mesh"
+        part = 0 if sd[2] is None else int(sd[2]) + 1
+        return ("arg", sd[1], part, mt[3], sd[3][1][1], X._code("cel", repr(sd[3][1][2]))) if ok else ("?", repr(sd))
+    if isinstance(t, GeometricQuantity):
+        sd = t._ufl_signature_data_(rn)
+        ok = sd[1] == "Mesh" and len(sd) == 4
+        return ("geo", X._code("geo", sd[0]), sd[2], X._code("cel", repr(sd[3]))) if ok else ("?", repr(sd))
+    return ("other", mt[1])
+
+
+def _rn_observe(chk, d, expr, label):
+    """One real compute_signature run on `expr`: capture, compare with the model; returns the observation."""
+    import ffcx.naming
+
+    pts = np.array([[0.25, 0.25]])
+    with X.CaptureRenumbering() as cr, X.CaptureSha1() as cap:
+        ffcx.naming.compute_signature([(expr, pts)], "t")
+    cap.require(1, "compute_signature")
+    if len(cr.calls) != 1:
+        raise X.CaptureError("cannot capture the renumbering: compute_signature did not call "
+                             "ufl.algorithms.signature.compute_expression_signature exactly once")
+    real_rn = cr.calls[0][1]
+    orders = cr.orders_for(expr)
+    objs, terms = X.expression_terms(expr)
+    res = X.model_renumber(d, terms, {k: [X.term_of(t) for t in orders[k]] for k in X._SET_KINDS})
+    model_rn = X.model_rn_dict(expr, res)
+    sig = cap.strings[-1].split(";")[0][:128]
+    detail = {"program": label, "terms": terms}
+    if not res["valid"]:
+        chk.disagree("renumbering: the captured set orders are not enumerations of the expression's terminal sets",
+                     dict(detail, orders={k: [X.term_of(t) for t in orders[k]] for k in X._SET_KINDS}))
+    if model_rn != real_rn:
+        chk.disagree("renumbering dict rn (naming.py:45-61) vs Lean `renumber`",
+                     dict(detail, model=sorted((repr(k)[:60], v) for k, v in model_rn.items()),
+                          impl=sorted((repr(k)[:60], v) for k, v in real_rn.items())))
+    for t, md in zip(objs, res["data"]):
+        real = _sigdata_numbers(t, real_rn)
+        if real[0] == "conststr":
+            dom = t.ufl_domain()
+            want = f"Constant({('Mesh', md[1], dom.ufl_coordinate_element())}, {t.ufl_shape!r}, {md[4]!r})"
+            ok = md[0] == "const" and want == real[1] and md[2] == X._code("cel", repr(dom.ufl_coordinate_element()))
+        else:
+            ok = tuple(real) == tuple(md)
+        if not ok:
+            chk.disagree("_ufl_signature_data_(rn) of a terminal vs Lean `termData`", dict(detail, terminal=repr(t)[:80], model=md, impl=real))
+    import ufl
+
+    if ufl.algorithms.signature.compute_expression_signature(expr, model_rn) != sig:
+        chk.disagree("expression signature under the model's renumbering vs the captured pre-hash string", detail)
+    if cr.geo_set_iterated:
+        chk.disagree("naming.py iterates the SET extract_type(expr, GeometricQuantity) again (the model takes the geometric "
+                     "quantities in traversal order: /repo 61cd434)", detail)
+    return {"terms": terms, "sig": sig, "res": res}
+
+
+def _relabel_between(t1, t2):
+    """The relabelling (fc, fk, fm) with terms2 = terms1.map ρ, and whether it is `Compatible`; None if the trees differ."""
+    if len(t1) != len(t2):
+        return None
+    fc, fk, fm = {}, {}, {}
+
+    def put(dct, a, b):
+        if dct.setdefault(a, b) != b:
+            raise ValueError
+
+    try:
+        for a, b in zip(t1, t2):
+            if a[0] != b[0]:
+                return None
+            if a[0] == "coeff":
+                put(fc, a[1], b[1]), put(fm, a[3], b[3])
+                same = a[2] == b[2] and a[4] == b[4]
+            elif a[0] == "const":
+                put(fk, a[1], b[1]), put(fm, a[3], b[3])
+                same = a[2] == b[2] and a[4] == b[4]
+            elif a[0] == "arg":
+                put(fm, a[4], b[4])
+                same = a[1:4] == b[1:4] and a[5] == b[5]
+            elif a[0] == "geo":
+                put(fm, a[2], b[2])
+                same = a[1] == b[1] and a[3] == b[3]
+            else:
+                same = a == b
+            if not same:
+                return None
+    except ValueError:
+        return None
+    mono = all((fx[a] <= fx[b]) == (a <= b) for fx in (fc, fk) for a in fx for b in fx)
+    inj = len(set(fm.values())) == len(fm)
+    return {"compatible": mono and inj, "shifted": any(a != b for fx in (fc, fk, fm) for a, b in fx.items())}
+
+
+def corr_renumbering(chk, d, rng, nprog, nhist):
+    """Seeded program texts x histories: model vs real renumbering, and the conclusion of
+    `signature_stable_across_processes` on the real signatures whenever its hypotheses hold."""
+    import basix.ufl
+    import ufl
+
+    programs = [[("mesh", 0, 1), ("mesh", 1, 1), ("geo", 0, "x0"), ("geo", 1, "x1")]]  # the two-mesh witness, always first
+    programs += [_rn_program(rng) for _ in range(nprog)]
+    geo_unstable = None
+    for pi, steps in enumerate(programs):
+        obs = []
+        for h in range(nhist if pi else max(nhist, 16)):
+            gaps = [0] * len(steps) if h == 0 else ([h] + [0] * len(steps) if (h % 2 or pi == 0) else
+                                                    [rng.randint(0, 2) for _ in steps])
+            try:
+                e = _rn_build(steps, gaps)
+                o = _rn_observe(chk, d, e, {"steps": steps, "gaps": gaps})
+            except X.Unsupported:
+                continue
+            obs.append((gaps, o))
+            r = o["res"]
+            chk.case("renumbering", key=f"c{len(r['coeffs'])}k{len(r['consts'])}a{len(r['args'])}m{len(r['domains'])}g{r['geonew']}")
+        if not obs:
+            continue
+        g0, o0 = obs[0]
+        for gaps, o in obs[1:]:
+            rel = _relabel_between(o0["terms"], o["terms"])
+            if rel is None or not rel["compatible"]:
+                chk.case("renumbering-history-tree-changed")
+                continue
+            hyp = o0["res"]["distinctkeys"]
+            chk.case("renumbering-invariance", key=f"p{pi}:hyp{hyp}:geonew{min(o0['res']['geonew'], 2)}:shift{rel['shifted']}")
+            if not hyp:
+                continue
+            if o["sig"] != o0["sig"]:
+                payload = {"program": steps, "history_a": g0, "history_b": gaps, "signatures": [o0["sig"][:16], o["sig"][:16]],
+                           "geo_only_meshes": o0["res"]["geonew"]}
+                if o0["res"]["geonew"] >= 2:
+                    geo_unstable = geo_unstable or payload
+                else:
+                    chk.violation(key="sig:unstable:expression-history",
+                                  what="the same expression program gets different signatures after a different history although the "
+                                       "hypotheses of signature_stable_across_processes hold (UFL-level instability)", payload=payload)
+    if geo_unstable is not None:
+        geo_violation(chk, geo_unstable)
+    # what renumbering_order_counterexample says about the real code: swapping the creation order of the two coefficients of
+    # f*grad(g)[0] changes the name — and the generated kernel (coefficients are passed in count() order), so this is separation
+    m = ufl.Mesh(basix.ufl.element("Lagrange", "triangle", 1, shape=(2,)))
+    V = ufl.FunctionSpace(m, basix.ufl.element("P", "triangle", 1))
+    f1, g1 = ufl.Coefficient(V), ufl.Coefficient(V)
+    g2, f2 = ufl.Coefficient(V), ufl.Coefficient(V)
+    pts = np.array([[0.25, 0.25]])
+    ea, eb = [(f1 * ufl.grad(g1)[0], pts)], [(f2 * ufl.grad(g2)[0], pts)]
+    na, nb = X.jit_names(ea, "expression", {})[0], X.jit_names(eb, "expression", {})[0]
+    differ = _code_of(ea) != _code_of(eb)
+    chk.case("renumbering-order-swap", key=f"names_differ={na != nb}:kernels_differ={differ}")
+    if na == nb and differ:
+        chk.violation(key="sig:coefficient-creation-order", what="f*grad(g) with f created before g and with g created before f "
+                      "generate different kernels but share a module name", payload={"module_name": na})
+    if na != nb and not differ:
+        chk.notes["renumbering_order_swap"] = "names differ although the kernels agree (over-separation, harmless)"
 
 
 def corr_integral_tags(chk, d, entries):
@@ -322,7 +667,11 @@ def corr_integral_tags(chk, d, entries):
 WORKER_ENTRIES_FORMS = ["mass_tri_p1", "laplace_coef_tri_p2", "stokes_mixed", "subdomains", "int_facet_tri",
                         "prism", "p2geom_tri", "math_tri"]
 WORKER_ENTRIES_EXPRS = ["expr_grad_tri", "expr_rank1", "expr_facet", "c13_expr_parent_facet_mesh", "c13_expr_two_meshes_same_cel",
-                        "c13_expr_three_meshes"]
+                        "c13_expr_three_meshes", "c13_expr_geo_one_new_mesh", "c13_expr_geo_two_meshes"]
+# requests also named with part='diagonal' (the rewriting must be as stable as the signature)
+WORKER_DIAGONAL = ["stokes_mixed", "c13_diag_blocked", "c13_diag_mixed"]
+# expressions that reach >= 2 meshes through geometric quantities only: unstable before /repo 61cd434 (regression key stays armed)
+GEO_DEFECT_ENTRIES = {"c13_expr_geo_two_meshes"}
 
 
 def local_entries():
@@ -350,7 +699,22 @@ def local_entries():
                 e = e * f
             return [(e + ufl.SpatialCoordinate(ms[-1])[0], np.array([[0.25, 0.25], [0.1, 0.6]]))]
         return b
-    return [corpus.Entry("c13_expr_parent_facet_mesh", parent_facet, kind="expression"),
+    def geo(n_geo_only):
+        def b():
+            cel = basix.ufl.element("Lagrange", "triangle", 1, shape=(2,))
+            m0 = ufl.Mesh(cel)
+            f = ufl.Coefficient(ufl.FunctionSpace(m0, basix.ufl.element("P", "triangle", 1)))
+            ms = [ufl.Mesh(cel) for _ in range(n_geo_only)]
+            e = f * ufl.SpatialCoordinate(m0)[0]
+            for k, m in enumerate(ms):
+                e = e + (k + 2) * ufl.SpatialCoordinate(m)[k % 2]
+            return [(e, np.array([[0.25, 0.25], [0.1, 0.6]]))]
+        return b
+    return [corpus.Entry("c13_expr_geo_one_new_mesh", geo(1), kind="expression"),
+            corpus.Entry("c13_expr_geo_two_meshes", geo(2), kind="expression"),
+            corpus.Entry("c13_diag_blocked", lambda: _bilinear("blocked"), kind="form"),
+            corpus.Entry("c13_diag_mixed", lambda: _bilinear("mixed"), kind="form"),
+            corpus.Entry("c13_expr_parent_facet_mesh", parent_facet, kind="expression"),
             corpus.Entry("c13_expr_two_meshes_same_cel", same_cel(2), kind="expression"),
             corpus.Entry("c13_expr_three_meshes", same_cel(3), kind="expression")]
 
@@ -386,6 +750,10 @@ def worker(spec_json):
             mname, onames, caps, _ = X.jit_names(objs, e.kind, spec.get("options", {}),
                                                  cffi_extra_compile_args=spec.get("args", []))
             out[n] = {"module": mname, "objects": onames, "prehash": caps}
+            if n in spec.get("diagonal", []):
+                dm, dn, dc, _ = X.jit_names(e.build(), e.kind, dict(spec.get("options", {}), part="diagonal"),
+                                            cffi_extra_compile_args=spec.get("args", []))
+                out[n]["diagonal"] = {"module": dm, "objects": dn, "prehash": dc}
             if n in spec.get("deep", []):
                 import ffcx.compiler
                 import ffcx.options
@@ -397,18 +765,37 @@ def worker(spec_json):
     sys.stdout.write("\n@@RESULT@@" + json.dumps(out) + "\n")
 
 
-def _run_worker(spec, hashseed):
+class WorkerFailed(RuntimeError):
+    pass
+
+
+def _run_worker_once(spec, hashseed):
     env = dict(os.environ)
     env["PYTHONHASHSEED"] = str(hashseed)
     env["PYTHONPATH"] = str(VERIF) + os.pathsep + env.get("PYTHONPATH", "")
     env["PYTHONDONTWRITEBYTECODE"] = "1"
-    p = subprocess.run(
-        [sys.executable, "-c", "import sys; from harness.props.c13 import worker; worker(sys.argv[1])", json.dumps(spec)],
-        capture_output=True, text=True, env=env, cwd=str(VERIF), timeout=900,
-    )
+    try:
+        p = subprocess.run(
+            [sys.executable, "-c", "import sys; from harness.props.c13 import worker; worker(sys.argv[1])", json.dumps(spec)],
+            capture_output=True, text=True, env=env, cwd=str(VERIF), timeout=900,
+        )
+    except subprocess.TimeoutExpired:
+        raise WorkerFailed(f"c13 worker timed out after 900 s (hash seed {hashseed})")
     if "@@RESULT@@" not in p.stdout:
-        raise RuntimeError(f"c13 worker failed (seed {hashseed}): {p.stderr[-2000:]}")
+        raise WorkerFailed(f"c13 worker failed (hash seed {hashseed}, rc {p.returncode}): {p.stderr[-1500:]}")
     return json.loads(p.stdout.split("@@RESULT@@", 1)[1])
+
+
+def _run_worker(spec, hashseed):
+    """One subprocess; a crash or the 900 s timeout is retried once (serially, by the caller's thread). Returns the
+    result dict or a WorkerFailed instance (reported by the caller as a broken tie, never as exit 2)."""
+    try:
+        return _run_worker_once(spec, hashseed)
+    except WorkerFailed:
+        try:
+            return _run_worker_once(spec, hashseed)
+        except WorkerFailed as ex:
+            return ex
 
 
 def stability(chk, thorough):
@@ -418,7 +805,9 @@ def stability(chk, thorough):
     entries = [n for n in WORKER_ENTRIES_FORMS + WORKER_ENTRIES_EXPRS if n in have]
     if len(entries) < 4:
         raise RuntimeError("corpus entries used by the C13 stability search disappeared")
-    base = {"entries": entries, "deep": [n for n in ("subdomains", "expr_rank1") if n in entries], "options": {"scalar_type": "float64"}, "args": ["-O2"]}
+    entries += [n for n in WORKER_DIAGONAL if n in have and n not in entries]
+    base = {"entries": entries, "deep": [n for n in ("subdomains", "expr_rank1") if n in entries], "options": {"scalar_type": "float64"}, "args": ["-O2"],
+            "diagonal": [n for n in WORKER_DIAGONAL if n in entries]}
     variants = [
         ("baseline", dict(base), 0),
         ("hashseed", dict(base), 1),
@@ -434,12 +823,23 @@ def stability(chk, thorough):
         variants += [(f"hashseed{s}", dict(base, warmup=s % 5, order="rev" if s % 2 else "fwd"), s) for s in range(5, 21)]
     with ThreadPoolExecutor(max_workers=6) as ex:
         results = list(ex.map(lambda v: _run_worker(v[1], v[2]), variants))
+    for (vname, spec, seed), res in zip(variants, results):
+        if isinstance(res, WorkerFailed):
+            chk.disagree("stability worker died twice (no names to compare)", {"variant": vname, "hashseed": seed, "error": str(res)[:1500]})
+    if isinstance(results[0], WorkerFailed):
+        return
     ref = results[0]
     for (vname, spec, seed), res in zip(variants[1:], results[1:]):
+        if isinstance(res, WorkerFailed):
+            continue
         for n in entries:
             chk.case("stability", key=f"{vname}:{n}")
             if res[n] != ref[n]:
                 which = [k for k in ref[n] if res[n].get(k) != ref[n][k]]
+                if n in GEO_DEFECT_ENTRIES:
+                    geo_violation(chk, {"entry": n, "variant": vname, "hashseed": seed, "warmup": spec.get("warmup", 0),
+                                        "module_names": [ref[n]["module"], res[n]["module"]]})
+                    continue
                 chk.violation(
                     key=f"sig:unstable:{n}",
                     what=f"names of request {n} differ between processes (variant {vname})",
@@ -456,7 +856,9 @@ def stability(chk, thorough):
             a = X.jit_names(e.build(), e.kind, base["options"], cffi_extra_compile_args=base["args"])[0]
             b = X.jit_names(e.build(), e.kind, base["options"], cffi_extra_compile_args=base["args"])[0]
             chk.case("stability-inprocess", key=n)
-            if not (a == b == ref[n]["module"]):
+            if not (a == b == ref[n]["module"]) and n in GEO_DEFECT_ENTRIES:
+                geo_violation(chk, {"entry": n, "names_in_process_twice_and_subprocess": [a, b, ref[n]["module"]]})
+            elif not (a == b == ref[n]["module"]):
                 chk.violation(key=f"sig:unstable-inprocess:{n}",
                               what="same request built twice in this process / in a subprocess: different module names",
                               payload={"entry": n, "names": [a, b, ref[n]["module"]]})
@@ -537,6 +939,31 @@ def separation(chk, thorough):
     check("sig:compile-args-split", "['-O2', '-g'] and ['-O2 -g'] share a module name",
           name(form(), cffi_extra_compile_args=["-O2", "-g"]), name(form(), cffi_extra_compile_args=["-O2 -g"]), {})
     check("sig:debug", "cffi_debug True/False share a module name", name(form(), cffi_debug=False), name(form(), cffi_debug=True), {})
+    # part='diagonal': jit.compile_forms rewrites the form list before the signature is taken (jit.py:178-195)
+    def _nocomment2(t):
+        return "\n".join(l for l in str(t).splitlines() if not l.lstrip().startswith(("//", "#")))
+
+    for space in ("scalar", "blocked", "mixed"):
+        full, diag = name(_bilinear(space)), name(_bilinear(space), options={"part": "diagonal"})
+        try:
+            differ = _nocomment2(_code_of(_bilinear(space), {"part": "diagonal"})) != _nocomment2(_code_of(_bilinear(space), {}))
+        except Exception:
+            differ = True
+        check(f"sig:diagonal-vs-full:{space}", f"part='diagonal' and part='full' of a bilinear form on a {space} space share a module name",
+              full, diag, {"space": space, "generated_kernels_differ": differ}, kernels_differ=differ)
+        if space != "scalar":
+            # two forms whose DIAGONAL blocks differ must separate under part='diagonal' …
+            check(f"sig:diagonal-block:{space}", "forms with different diagonal blocks share a module name under part='diagonal'",
+                  diag, name(_bilinear(space, 1), options={"part": "diagonal"}), {"space": space, "variant": "diagonal block scaled"})
+            # … forms that differ in an off-diagonal block only generate the same diagonal kernels: sharing is allowed
+            off = name(_bilinear(space, 2), options={"part": "diagonal"})
+            try:
+                d_off = (_nocomment2(_code_of(X.jit_names(_bilinear(space, 2), "form", {"part": "diagonal"})[3], {"part": "diagonal"}))
+                         != _nocomment2(_code_of(X.jit_names(_bilinear(space), "form", {"part": "diagonal"})[3], {"part": "diagonal"})))
+            except Exception:
+                d_off = True
+            check(f"sig:diagonal-offblock:{space}", "forms whose rewritten diagonal forms generate different kernels share a module name",
+                  diag, off, {"space": space, "variant": "off-diagonal block scaled", "generated_kernels_differ": d_off}, kernels_differ=d_off)
     # evaluation points
     pA = np.array([[0.123456789, 0.5], [0.25, 0.25]])
     pB = np.array([[0.123456788, 0.5], [0.25, 0.25]])
@@ -651,26 +1078,44 @@ def run(chk):
     rng = random.Random(1000 + chk.seed)
     chk.rule = ("printer cases: random scalars/option dicts/point arrays (key = type, length class); encode cases: corpus "
                 "entry x random options x compile args (every request is non-trivial); stability: request x "
-                "process variant; separation: one key per ingredient; distinct-names: one key per generated module")
+                "process variant; renumbering: seeded program text x history (key = sizes of the four sets, number of geometry-only "
+                "meshes); separation: one key per ingredient; distinct-names: one key per generated module")
     chk.trusted += [
         "SHA-1 is uninterpreted in the model; theorems assume injectivity on the hashed strings where stated",
-        "UFL signatures (Form.signature, compute_expression_signature) are inputs of the model",
+        "UFL signatures are inputs of the model: Form.signature() entirely; for expressions UFL's tree hash over the leaf data "
+        "(compute_expression_signature) — the renumbering dict it is given IS modelled (FfcxModel/Jit/Renumber.lean) and tied",
         "shortest round-trip digits of Python floats are computed by the harness (%.{p}e search), the model lays them out",
         "harness/extract_names.py (C/Python lexers for top-level names, hashlib shim, jit cache-lookup stop)",
     ]
     chk.assumptions += [
-        "non-win32 branch of _compilation_signature; strings restricted to ASCII in the repr(str) correspondence",
+        "the win32 branch of _compilation_signature is tied by shimming sys.platform for the one call (EXT_SUFFIX of this "
+        "install); strings restricted to ASCII in the repr(str) correspondence",
+        "renumbering model: every terminal lives on exactly one ufl.Mesh (as naming.py:52-60 requires); UFL's operand sorting / "
+        "index numbering are outside the model",
         "the SHA-1 of the point bytes is a parameter of the model (`digest`), computed by the harness with hashlib",
     ]
     X.regenerate()
     chk.lean("FfcxProofs.C13", THEOREMS, extra_files=LEAN_FILES)
     from .. import corpus
 
+    try:
+        _run_searches(chk, thorough, rng, corpus)
+    except X.CaptureError as ex:
+        # the hook points of the capture moved (hashlib spelled differently, a patched function renamed, …): the tie
+        # between model and code is broken; nothing can be said about names on this tree
+        chk.disagree(str(ex), {"phase": "capture"})
+    if thorough:
+        chk.leanchecker(["FfcxProofs.C13"])
+
+
+def _run_searches(chk, thorough, rng, corpus):
     with X.hermetic_options():
         fixed = {e.name: e for e in corpus.fixed() + corpus.expressions()}
         with lean.Driver("driver_names") as d:
             corr_printers(chk, d, rng, 6000 if thorough else 1200)
             corr_pointskey(chk, d, rng, 4000 if thorough else 500)
+            corr_renumbering(chk, d, rng, 120 if thorough else 30, 6 if thorough else 4)
+            corr_encode(chk, d, rng, [_DiagEntry(sp) for sp in ("scalar", "blocked", "mixed")], 3 if thorough else 2)
             names = list(fixed) if thorough else ["mass_tri_p1", "laplace_coef_tri_p2", "stokes_mixed", "subdomains", "prism",
                                                     "int_facet_tri", "expr_grad_tri", "expr_grad_tet", "expr_rank1", "expr_tensor", "expr_facet"]
             corr_encode(chk, d, rng, [fixed[n] for n in names if n in fixed], 6 if thorough else 4)
@@ -701,5 +1146,3 @@ def run(chk):
         separation(chk, thorough)
         distinct_names(chk, thorough)
     stability(chk, thorough)
-    if thorough:
-        chk.leanchecker(["FfcxProofs.C13"])
